@@ -428,7 +428,11 @@ def r5(ctx):
                 return 'plain'
             if isinstance(t, Ite):
                 c = show(t.cond, 300)
-                if f'self.region{k}' in c and "'include'" in c:
+                # the flag read is meta.get('include', True) of operand k: key first, default True
+                gets = [x for x in _find_apps(t.cond, 'meta.get')]
+                well_formed = any(len(g.args) == 3 and isinstance(g.args[1], Const) and g.args[1].v == 'include'
+                                  and isinstance(g.args[2], Const) and g.args[2].v is True for g in gets)
+                if f'self.region{k}' in c and "'include'" in c and well_formed:
                     comp, keep = (t.a, t.b) if c.startswith('not ') else (t.b, t.a)
                     if same(keep, pad) and isinstance(comp, App) and comp.name == 'binop:Sub' and comp.args[0] == 1 \
                             and same(comp.args[1], pad):
